@@ -7,6 +7,7 @@ import PsProofs.PreSieve
 import PsProofs.Segments
 import Mathlib.Tactic.NormNum.Prime
 import Mathlib.Tactic.IntervalCases
+import PsModel.Generated.Locks
 
 namespace Ps.Props
 open Ps Ps.Spec
@@ -201,5 +202,23 @@ theorem C01_wheel_source : Gen.addSievingPrimeText =
 /-- non-vacuity: the prime 7 at segment 0 starts at 7·7 = 49 = 0 + 30·1 + 19 (bit 4), wheel index 1 -/
 example : addSievingPrime 30 8 Gen.wheel30Init 1000 7 0 = some ⟨0, 1, 1⟩ ∧
     (step30 Gen.eratMediumRows ⟨0, 1, 1⟩) = (4, ⟨0, 2, 2⟩) := by decide +kernel
+
+/-- **C01 (model sources)** regenerated on every run: digests of the (comment-, hook- and whitespace-normalised) bodies of the
+    functions that the hand-written model behind the theorems of this file mirrors.  An edit to one of
+    them — harmless or not — breaks this obligation; the check then searches for a failing input
+    with the correspondence streams (DESIGN.md section 2, step 5). -/
+theorem C01_model_sources :
+    Gen.modelSources.filter (fun e => e.1 ∈ ["iterator.generate_next_primes", "iterator.hpp.next_prime", "IteratorHelper.updateNext", "IteratorHelper.getNextDist", "PrimeGenerator.initErat", "PrimeGenerator.sieveNextPrimes", "PrimeGenerator.sieveSegment", "Erat.init", "Erat.initAlgorithms", "Erat.preSieve", "PreSieve.preSieve"]) =
+     [("iterator.generate_next_primes", "2a13a14724829f92f5fe"),
+      ("iterator.hpp.next_prime", "3ef2a1a42a787f93e2be"),
+      ("IteratorHelper.updateNext", "4131a8a58e0e755d4fb9"),
+      ("IteratorHelper.getNextDist", "fe0225e589ca1011db71"),
+      ("PrimeGenerator.initErat", "e9abf2b828768ab0d322"),
+      ("PrimeGenerator.sieveNextPrimes", "ebee29abba9b6db6af30"),
+      ("PrimeGenerator.sieveSegment", "3639ea2a437c015b1ea1"),
+      ("Erat.init", "6050ef3bf0435ee43aae"),
+      ("Erat.initAlgorithms", "f1a7ebe09c59958b8c39"),
+      ("Erat.preSieve", "7341fc248d9a958b47cf"),
+      ("PreSieve.preSieve", "4e4f4f3e84a651d27b42")] := by decide
 
 end Ps.Props
